@@ -12,4 +12,9 @@ def instantiate(gen_q, tag: str):
         f"Definition Front_roundtrip_live_{tag} := fun file inc incfuel prog => "
         f"Front_roundtrip live_lexicon_{tag} file inc incfuel prog live_lexicon_{tag}_rt.\n"
     )
+    if tag == "c08":        # the property that lists the extended class (Properties/FrontEndExt.v)
+        text += ("From A816 Require Proofs.RoundTripExtProgram.\nFrom A816 Require Import Model.Parser.\n"
+                 f"Lemma live_lexicon_{tag}_rt_ext : RoundTripExtProgram.lexicon_rt live_lexicon_{tag} = true.\nProof. vm_compute. reflexivity. Qed.\n"
+                 f"Lemma live_lexicon_{tag}_include : mem_str k_include (lx_keywords live_lexicon_{tag}) = true.\nProof. vm_compute. reflexivity. Qed.\n")
+        return text, [f"Front_roundtrip_live_{tag}", f"live_lexicon_{tag}_rt_ext", f"live_lexicon_{tag}_include"]
     return text, [f"Front_roundtrip_live_{tag}"]
